@@ -418,7 +418,8 @@ class TypeTransformer:
                 if data.lower() in self.TRUE_VALUES:
                     return t(1)
             elif isinstance(data, t):
-                return data
+                # including bool (as in the first branch): True -> 1
+                return t(data)
 
         try:
             data = Decimal(data)
